@@ -17,9 +17,9 @@ func init() {
 		ID:        "C13",
 		Technique: "call-graph closure from the receive entry points (static + VTA), compiler BCE report with a reviewed residual table, panic-site scan with precondition discharge by dominating guards, loop classification, guarded allocation sizes",
 		Explanation: "Over the closure of functions reachable (static calls and VTA-resolved dynamic calls, library packages only) from the receive entry points — frame/packet readers, error and metadata decoders, code extraction, packet dispatch in stream and manager, the mux, the server's RPC handler and the HTTP gateway: " +
-			"(R1) every index/slice bounds check is proved by the Go compiler or is one of the reviewed residuals (keyed by function and expression, each with its reason); " +
+			"(R1) every index/slice bounds check is proved by the Go compiler, or implied by the dominating comparisons (difference-constraint prover over SSA values and lengths, an/bounds.go), or is one of the reviewed residuals (keyed by function and expression, each with its reason); " +
 			"(R2) there is no unchecked type assertion, explicit panic, division by a variable, and every call to a partial library function (strings.Builder.Grow, reflect.Value methods, ...) has its precondition established by a dominating guard; " +
-			"(R3) every loop is counted, length-bounded, shrinking, a range/wait loop, or a reviewed input-consuming / event loop; " +
+			"(R3) every loop is counted, length-bounded, shrinking, consuming (cuts a leading element off a carried slice on every way round), reading (a full read per iteration whose error ends the loop), a range/wait loop, or a reviewed input-consuming / event loop; " +
 			"(R4) every allocation whose size derives from peer bytes is dominated by a comparison with a limit, and LimitReader bounds are constants.",
 		NotDecided: "nothing about results; allocation totals beyond the guarded sites; nil dereferences (a generic analyser's domain; nilaway's only lead became C05.R6); panics inside user handlers and encodings.",
 		Assumptions: []string{
